@@ -141,7 +141,7 @@ def run_tlc(module, cfg, workers=None, timeout=600, extra_files=None, simulate=N
     env = dict(os.environ)
     env.pop("JAVA_TOOL_OPTIONS", None)
     try:
-        p = subprocess.run(cmd, cwd=d, capture_output=True, text=True, timeout=timeout, env=env)
+        p = subprocess.run(cmd, cwd=d, capture_output=True, text=True, errors="replace", timeout=timeout, env=env)
     except subprocess.TimeoutExpired:
         subprocess.run(["pkill", "-f", meta], capture_output=True)
         raise InfraError("TLC timeout after %ds on %s" % (timeout, module))
@@ -280,7 +280,7 @@ def run_bin(binpath, args, stdin=None, timeout=600, env=None, cwd=None, taskset=
         extra = {"user": pw.pw_uid, "group": pw.pw_gid, "extra_groups": []}
         e["HOME"] = "/tmp"
     try:
-        p = subprocess.run(cmd, input=stdin, capture_output=True, text=True, timeout=timeout, env=e, cwd=cwd, **extra)
+        p = subprocess.run(cmd, input=stdin, capture_output=True, text=True, errors="replace", timeout=timeout, env=e, cwd=cwd, **extra)
     except subprocess.TimeoutExpired as ex:
         class R:
             pass
